@@ -59,7 +59,7 @@ def make_overlay(dest, mode="kani", only=None):
         src, inline, ident = target_of(f)
         shutil.copy(os.path.join(VERIF, "harness", f), os.path.join(hdir, f))
         path = os.path.join(hdir, f)
-        decl = f'#[cfg(kani)]\n#[path = "{path}"]\nmod {ident};\n'
+        decl = f'#[cfg(kani)]\n#[path = "{path}"]\npub(crate) mod {ident};\n'
         sp = os.path.join(ov, "src", src)
         if not os.path.exists(sp):
             raise SystemExit(f"overlay: harness {f} targets missing source file src/{src}")
